@@ -259,6 +259,169 @@ Proof.
   exact (documented_transport_delivers _ O ps zx zy sx sy dx dy Ht Hdoc).
 Qed.
 
+(* ====================================================================================================
+   rearrange: the documented preconditions, on a zone where parking is possible
+   ==================================================================================================== *)
+Lemma Qle_bool_false_lt a b : Qle_bool b a = false -> (a < b)%Q.
+Proof. intros H. apply Qnot_le_lt. intros L. apply Qle_bool_iff in L. rewrite L in H. discriminate. Qed.
+
+Lemma asc_qb_ascending l : asc_qb l = true -> ascending_q l.
+Proof.
+  induction l as [|a r IH]; intros H; [exact I|]. simpl in H. destruct r as [|b r'].
+  - split; exact I.
+  - apply andb_true_iff in H. destruct H as [H1 H2]. split; [|apply IH, H2].
+    apply Qle_bool_false_lt. apply negb_true_iff. exact H1.
+Qed.
+
+Lemma ascending_nondecb l : ascending_q l -> nondecb l = true.
+Proof.
+  induction l as [|a r IH]; intros A; [reflexivity|]. destruct A as [A1 A2]. simpl. destruct r as [|b r']; [reflexivity|].
+  apply andb_true_iff. split; [apply Qle_bool_iff, Qlt_le_weak, A1 | apply IH, A2].
+Qed.
+
+(* gaps of more than 6 between neighbours, hence between any two *)
+Fixpoint gaps6_q (l : list Q) : Prop :=
+  match l with
+  | [] => True
+  | a :: r => match r with [] => True | b :: _ => (a + 6 < b)%Q end /\ gaps6_q r
+  end.
+Lemma gaps6b_gaps6 l : gaps6b l = true -> gaps6_q l.
+Proof.
+  induction l as [|a r IH]; intros H; [exact I|]. simpl in H. destruct r as [|b r'].
+  - split; exact I.
+  - apply andb_true_iff in H. destruct H as [H1 H2]. split; [|apply IH, H2].
+    apply Qle_bool_false_lt. apply negb_true_iff. exact H1.
+Qed.
+Lemma gaps6_head a r : gaps6_q (a :: r) -> forall j, j < length r -> (a + 6 < nth j r 0)%Q.
+Proof.
+  revert a. induction r as [|b r' IH]; intros a A j Hj; simpl in Hj; [lia|].
+  destruct A as [A1 A2]. destruct j as [|j]; [exact A1|].
+  simpl. apply Qlt_trans with (b + 6)%Q; [|apply (IH b A2 j); lia].
+  apply Qlt_trans with b; [exact A1|]. rewrite <- (Qplus_0_r b) at 1. apply Qplus_lt_r. reflexivity.
+Qed.
+Lemma gaps6_nth l : gaps6_q l -> forall i j, i < j -> j < length l -> (nth i l 0 + 6 < nth j l 0)%Q.
+Proof.
+  induction l as [|a r IH]; simpl; intros A i j Hij Hj; [lia|].
+  destruct j as [|j]; [lia|]. destruct i as [|i].
+  - apply (gaps6_head a r A j). lia.
+  - destruct A as [_ A2]. apply IH; [exact A2 | lia | lia].
+Qed.
+Lemma gaps6_pick xs ix : gaps6_q xs -> ascending_nat ix -> (forall i, In i ix -> i < length xs) -> gaps6_q (pick_coords ix xs).
+Proof.
+  intros Ax. induction ix as [|a r IH]; intros Ai Hr; [exact I|].
+  destruct Ai as [A1 A2]. simpl. split.
+  - destruct r as [|b r']; simpl; [exact I|]. apply (gaps6_nth xs Ax a b A1). apply Hr. right. left. reflexivity.
+  - apply IH; [exact A2 | intros i Ii; apply Hr; right; exact Ii].
+Qed.
+
+(* parking along x: the zone-wide condition carries over to any ascending selection *)
+Lemma nth_map_seq (f : nat -> Q) n i : i < n -> nth i (map f (seq 0 n)) 0%Q = f i.
+Proof.
+  intros H. rewrite (nth_indep _ 0%Q (f 0)) by (rewrite map_length, seq_length; exact H).
+  rewrite (map_nth f (seq 0 n) 0 i). rewrite seq_nth by exact H. reflexivity.
+Qed.
+Lemma map_parking_as_pick zx ix : (forall i, In i ix -> i < length zx) ->
+  map (parking_x zx) ix = pick_coords ix (map (parking_x zx) (seq 0 (length zx))).
+Proof.
+  intros Hr. unfold pick_coords. apply map_ext_in. intros i Ii. symmetry. apply nth_map_seq. apply Hr, Ii.
+Qed.
+Lemma parking_x_ascending zx ix :
+  asc_qb (map (parking_x zx) (seq 0 (length zx))) = true -> ascending_nat ix -> (forall i, In i ix -> i < length zx) ->
+  ascending_q (map (parking_x zx) ix).
+Proof.
+  intros H Ai Hr. rewrite (map_parking_as_pick zx ix Hr). apply ascending_pick; [apply asc_qb_ascending, H | exact Ai |].
+  intros i Ii. rewrite map_length, seq_length. apply Hr, Ii.
+Qed.
+
+(* parking along y *)
+Lemma parking_y_start_bounds s e : (s - 3 <= parking_y_start s e)%Q /\ (parking_y_start s e <= s + 3)%Q.
+Proof.
+  unfold parking_y_start. destruct (Qle_bool s e); split; try apply Qle_refl.
+  - unfold Qminus. apply Qplus_le_r. discriminate.
+  - unfold Qminus. apply Qplus_le_r. discriminate.
+Qed.
+Lemma parking_y_end_bounds s e : (e - 3 <= parking_y_end s e)%Q /\ (parking_y_end s e <= e + 3)%Q.
+Proof.
+  unfold parking_y_end. destruct (negb (Qle_bool e s)); split; try apply Qle_refl.
+  - unfold Qminus. apply Qplus_le_r. discriminate.
+  - unfold Qminus. apply Qplus_le_r. discriminate.
+Qed.
+
+Lemma within3_ascending (f : Q * Q -> Q) (key : Q * Q -> Q) :
+  (forall p, (key p - 3 <= f p)%Q /\ (f p <= key p + 3)%Q) ->
+  forall l, gaps6_q (map key l) -> ascending_q (map f l).
+Proof.
+  intros B. induction l as [|p r IH]; intros G; [exact I|].
+  simpl in G. destruct G as [G1 G2]. simpl. split; [|apply IH, G2].
+  destruct r as [|q r']; simpl; [exact I|]. simpl in G1.
+  destruct (B p) as [_ Bp]. destruct (B q) as [Bq _].
+  apply Qle_lt_trans with (key p + 3)%Q; [exact Bp|].
+  apply Qlt_le_trans with (key q - 3)%Q; [|exact Bq].
+  (* key p + 3 < key q - 3  from  key p + 6 < key q *)
+  apply (Qplus_lt_l _ _ 3). unfold Qminus. rewrite <- !Qplus_assoc.
+  setoid_replace (-(3) + 3)%Q with 0%Q by reflexivity. rewrite Qplus_0_r.
+  setoid_replace (3 + 3)%Q with 6%Q by reflexivity. exact G1.
+Qed.
+
+Lemma map_fst_combine {A B} (l : list A) (m : list B) : length l = length m -> map fst (combine l m) = l.
+Proof. revert m. induction l as [|a r IH]; intros m E; [reflexivity|]. destruct m as [|b m']; [discriminate|]. simpl. f_equal. apply IH. simpl in E. lia. Qed.
+Lemma map_snd_combine {A B} (l : list A) (m : list B) : length l = length m -> map snd (combine l m) = m.
+Proof. revert m. induction l as [|a r IH]; intros m E; destruct m as [|b m']; try discriminate; [reflexivity|]. simpl. f_equal. apply IH. simpl in E. lia. Qed.
+
+(* the documented preconditions on a zone where parking is possible: the call is accepted, strict, and hence delivers *)
+Theorem rearrange_documented_call_is_accepted_and_strict zx zy sx sy dx dy :
+  ascending_q zx -> ascending_q zy -> parking_ok zx zy = true -> rearrange_preconditionsb zx zy sx sy dx dy = true ->
+  exists ps, rearrange_model zx zy sx sy dx dy = Some ps /\ ps <> [] /\ rearrange_strict zx zy sx sy dx dy = true.
+Proof.
+  intros Ax Ay Hp Hpre. unfold rearrange_preconditionsb in Hpre.
+  repeat match goal with H : _ && _ = true |- _ => apply andb_true_iff in H; destruct H end.
+  unfold parking_ok in Hp. apply andb_true_iff in Hp. destruct Hp as [Px Py].
+  repeat match goal with
+         | H : (_ <=? _) = true |- _ => apply Nat.leb_le in H
+         | H : (_ =? _) = true |- _ => apply Nat.eqb_eq in H
+         end.
+  match goal with
+  | N1 : 1 <= length sx, N2 : 1 <= length sy, L1 : length sx = length dx, L2 : length sy = length dy,
+    S1 : sorted_strictb sx = true, S2 : sorted_strictb sy = true, S3 : sorted_strictb dx = true, S4 : sorted_strictb dy = true,
+    R1 : in_rangeb (length zx) sx = true, R2 : in_rangeb (length zy) sy = true, R3 : in_rangeb (length zx) dx = true, R4 : in_rangeb (length zy) dy = true |- _ =>
+      pose proof (sorted_strictb_ascending _ S1) as A1; pose proof (sorted_strictb_ascending _ S2) as A2;
+      pose proof (sorted_strictb_ascending _ S3) as A3; pose proof (sorted_strictb_ascending _ S4) as A4;
+      pose proof (proj1 (in_rangeb_spec _ _) R1) as I1; pose proof (proj1 (in_rangeb_spec _ _) R2) as I2;
+      pose proof (proj1 (in_rangeb_spec _ _) R3) as I3; pose proof (proj1 (in_rangeb_spec _ _) R4) as I4
+  end.
+  (* the four parking coordinate lists and the destination grid are ascending *)
+  pose proof (parking_x_ascending zx sx Px A1 I1) as Xs. pose proof (parking_x_ascending zx dx Px A3 I3) as Xd.
+  pose proof (gaps6b_gaps6 _ Py) as Gy.
+  set (ys := combine (pick_coords sy zy) (pick_coords dy zy)).
+  assert (Ly : length (pick_coords sy zy) = length (pick_coords dy zy)) by (rewrite !pick_length; assumption).
+  assert (Ys : ascending_q (map (fun p => parking_y_start (fst p) (snd p)) ys)).
+  { apply (within3_ascending (fun p => parking_y_start (fst p) (snd p)) fst); [intros p; apply parking_y_start_bounds|].
+    unfold ys. rewrite (map_fst_combine _ _ Ly). apply gaps6_pick; assumption. }
+  assert (Ye : ascending_q (map (fun p => parking_y_end (fst p) (snd p)) ys)).
+  { apply (within3_ascending (fun p => parking_y_end (fst p) (snd p)) snd); [intros p; apply parking_y_end_bounds|].
+    unfold ys. rewrite (map_snd_combine _ _ Ly). apply gaps6_pick; assumption. }
+  pose proof (ascending_pick zx dx Ax A3 I3) as Pdx. pose proof (ascending_pick zy dy Ay A4 I4) as Pdy.
+  eexists. split; [|split].
+  - unfold rearrange_model.
+    replace ((length sx <? 1) || (length dx <? 1)) with false
+      by (symmetry; apply orb_false_iff; split; apply Nat.ltb_ge; lia).
+    replace ((length sx =? length dx) && (length sy =? length dy)) with true
+      by (symmetry; apply andb_true_iff; split; apply Nat.eqb_eq; assumption).
+    cbn [negb].
+    match goal with S1 : sorted_strictb sx = true, S2 : sorted_strictb sy = true, S3 : sorted_strictb dx = true, S4 : sorted_strictb dy = true |- _ => rewrite S1, S2, S3, S4 end.
+    match goal with R1 : in_rangeb (length zx) sx = true, R2 : in_rangeb (length zy) sy = true, R3 : in_rangeb (length zx) dx = true, R4 : in_rangeb (length zy) dy = true |- _ => rewrite R1, R2, R3, R4 end.
+    cbn [andb negb].
+    replace ((length sy <? 1) || (length dy <? 1)) with false
+      by (symmetry; apply orb_false_iff; split; apply Nat.ltb_ge; lia).
+    unfold rearrange_waypoints. cbv zeta. cbn [forallb fst snd]. fold ys.
+    rewrite (ascending_nondecb _ Xs), (ascending_nondecb _ Xd), (ascending_nondecb _ Ys), (ascending_nondecb _ Ye),
+            (ascending_nondecb _ Pdx), (ascending_nondecb _ Pdy). cbn [andb negb]. reflexivity.
+  - discriminate.
+  - unfold rearrange_strict, rearrange_waypoints. cbv zeta. cbn [forallb fst snd]. fold ys.
+    rewrite (ascending_distinct _ Xs), (ascending_distinct _ Xd), (ascending_distinct _ Ys), (ascending_distinct _ Ye),
+            (ascending_distinct _ Pdx), (ascending_distinct _ Pdy). reflexivity.
+Qed.
+
 (* acceptance alone does not make a rearrange call executable: on a two-pair zone with pair pitch 6 the right column of the
    first pair and the left column of the second park on the same coordinate, and Grid() only asserts spacing >= 0 *)
 Theorem rearrange_accepts_coinciding_refuted :
